@@ -23,7 +23,11 @@ type documentXML struct {
 type bodyXML struct {
 	Paragraphs []paragraphXML `xml:"p"`
 	Tables     []tableXML     `xml:"tbl"`
-	Elements   []bodyElement  `xml:"-"` // Populated manually to preserve order
+	// Paragraphs and tables wrapped in a block-level content control (<w:sdt>:
+	// a table of contents, a cover page, any rich-text control), in document order
+	SdtParagraphs []paragraphXML `xml:"sdt>sdtContent>p"`
+	SdtTables     []tableXML     `xml:"sdt>sdtContent>tbl"`
+	Elements      []bodyElement  `xml:"-"` // Populated manually to preserve order
 }
 
 // bodyElement represents an element in the document body (paragraph or table).
